@@ -20,7 +20,7 @@ RULE = ('random histories of creating load / dump / JSON-dump functions over dif
         'yatiml.Loader / Dumper (keys and dict identities) and the behaviour of yaml.safe_load / '
         'yaml.safe_dump are unchanged; classes of one function are unknown to the others; user classes '
         'keep their attributes.  Non-trivial = a history with at least two functions and a failing call.'
-        'Also: plug-ins - one shared base class, each load function with its own same-named'
+        ' Also: plug-ins - one shared base class, each load function with its own same-named'
         ' subclass.')
 ASSUMPTIONS = ['CPython: class attribute lookup along the MRO, dict copy semantics; the GIL and thread '
                'scheduling are not modelled (threads are exercised, not proved)']
